@@ -6,7 +6,8 @@
 //
 //	LPCASE <id> <kind> nthreads=<n> local=<0|1> reasm=<0|1> ccf=<0|1> lcp=<0|1>
 //	SEND mtu=<m> frag=<0|1> ifi=<0|1> seq=<dec> tok=<hex> inface=<dec> mark=<dec> [hist=fi,fi,..] wire=<hex>      (real sendPacket;
-//	     hist: the sender is constructed with the first option pair and SetOptions is called for each further one)
+//	     hist: the sender is constructed with the first option pair and SetOptions is called for each further one;
+//	     keep=1: sent by the link service of the previous SEND of the case (seq = that service's own counter))
 //	SENDZ mtu=.. frag=.. ifi=.. seq=.. tok=.. inface=.. mark=.. n=<len>                            (wire = pattern(n): byte i = i*7+n mod 251)
 //	  FR <hex> | FO <hex>     frame accepted / refused (larger than the MTU) by the transport   (after SEND)
 //	  FZ <len>:<md5/8> ... | OZ <len>:<md5/8> ...                                               (after SENDZ)
@@ -171,6 +172,7 @@ type lpOp struct {
 	n      int      // SENDZ
 	hist   []string // option history of the sending link service: "fi" items (fragmentation, incoming-face indication):
 	// constructed with the first, SetOptions for each further one; the last equals (frag, ifi). nil = constructed with (frag, ifi)
+	keep  bool   // SEND: on the link service (and transport) of the previous SEND of the case; seq is then the service's own counter
 	frame []byte // RECV
 	// filled when a SEND is executed with capture
 	frames [][]byte
@@ -233,6 +235,9 @@ func opHeader(o *lpOp) string {
 	if len(o.hist) > 0 {
 		h += " hist=" + strings.Join(o.hist, ",")
 	}
+	if o.keep {
+		h += " keep=1"
+	}
 	return h
 }
 
@@ -269,13 +274,21 @@ func runLpCase(w *bufio.Writer, c *lpCase, r *rand.Rand) {
 
 	ops := c.ops
 	var held []recvRec
+	var prevSnd *face.NDNLPLinkService
+	var prevSt *face.VerifTransport
 	for k := 0; k < len(ops); k++ {
 		o := ops[k]
 		switch o.kind {
 		case "SEND", "SENDZ":
 			st := face.NewVerifTransport(o.mtu, defn.NonLocal)
 			var snd *face.NDNLPLinkService
-			if len(o.hist) == 0 {
+			if o.keep && prevSnd != nil {
+				// the same link service sends packet after packet (what a face does): nothing of an earlier packet may stay behind
+				snd, st = prevSnd, prevSt
+				st.Reset()
+				st.SetMTU(o.mtu)
+				o.seq = face.VerifNextSequence(snd)
+			} else if len(o.hist) == 0 {
 				sopts := face.MakeNDNLPLinkServiceOptions()
 				sopts.IsFragmentationEnabled = o.frag
 				sopts.IsIncomingFaceIndicationEnabled = o.ifi
@@ -287,7 +300,10 @@ func runLpCase(w *bufio.Writer, c *lpCase, r *rand.Rand) {
 					snd.SetOptions(senderOptions(it, k+1))
 				}
 			}
-			face.VerifSetNextSequence(snd, o.seq)
+			if !(o.keep && snd == prevSnd) {
+				face.VerifSetNextSequence(snd, o.seq)
+			}
+			prevSnd, prevSt = snd, st
 			wire := o.wire
 			if o.kind == "SENDZ" {
 				wire = patternWire(o.n)
@@ -791,6 +807,78 @@ func genHistCase(r *rand.Rand, idx int, thorough bool) *lpCase {
 	return c
 }
 
+// exactFit returns the largest packet size whose unfragmented LpPacket with these header fields is at most mtu bytes.
+func exactFit(mtu int, tok []byte, inface, mark *uint64) int {
+	for n := mtu; n > 0; n-- {
+		lp := &spec.LpPacket{Fragment: enc.Wire{make([]byte, n)}, IncomingFaceId: inface, CongestionMark: mark}
+		if len(tok) > 0 {
+			lp.PitToken = tok
+		}
+		if len(encodeLp(lp)) <= mtu {
+			return n
+		}
+	}
+	return 0
+}
+
+// genVaryCase: ONE link service sends packet after packet with varying sets of header fields - a field present, then absent;
+// token lengths shrinking 32 -> 6 -> 1 -> none; mark set -> unset; incoming-face id set -> unset - mostly unfragmented, some
+// exactly filling the MTU (a stale field of the previous packet would make them oversize), some fragmented in between.
+// The peer gets all frames in order; every delivered (bytes, token, mark) is compared with what was sent.
+func genVaryCase(r *rand.Rand, idx int) *lpCase {
+	c := &lpCase{id: fmt.Sprintf("vary%d", idx), kind: "c10-perm", nthreads: 1 + idx%3, reasm: true}
+	mtu := []int{256, 1500, 8800, 400}[idx%4]
+	ifi := idx%2 == 0
+	toks := [][]byte{make([]byte, 32), {0, 0, 9, 8, 7, 6}, {0x42}, nil, {0, 0, 1, 1, 1, 1}, nil, make([]byte, 20), nil}
+	marks := []*uint64{utils.IdPtr(uint64(1)), nil, utils.IdPtr(uint64(70000)), nil, nil, utils.IdPtr(uint64(0)), nil, nil}
+	infaces := []*uint64{utils.IdPtr(uint64(300)), utils.IdPtr(uint64(1) << 40), nil, nil, utils.IdPtr(uint64(7)), nil, nil, nil}
+	rot := r.Intn(8)
+	n := 5 + r.Intn(4)
+	for k := 0; k < n; k++ {
+		j := (k + rot) % 8
+		tok, mark, inface := toks[j], marks[(j+idx)%8], infaces[(j+2*idx)%8]
+		if len(tok) > 6 {
+			tok = append([]byte{}, tok...)
+			r.Read(tok)
+		}
+		if !ifi {
+			inface = nil
+		}
+		var size int
+		switch r.Intn(4) {
+		case 0: // exactly filling the MTU with the fields of THIS packet
+			size = exactFit(mtu, tok, inface, mark)
+		case 1: // fragmented
+			size = mtu + 50 + r.Intn(mtu)
+		default:
+			size = 90 + r.Intn(100)
+		}
+		if size > 8800 {
+			size = 8800
+		}
+		if size < 90 {
+			size = 90
+		}
+		c.ops = append(c.ops, &lpOp{kind: "SEND", mtu: mtu, frag: true, ifi: ifi, seq: seqStarts[idx%len(seqStarts)], tok: tok, mark: mark, inface: inface,
+			wire: mkData(r, size), keep: k > 0})
+	}
+	c.after = func(c *lpCase, r *rand.Rand) []*lpOp {
+		var res []*lpOp
+		m := 0
+		for _, o := range c.ops {
+			if o.kind == "SEND" {
+				for i, f := range o.frames {
+					res = append(res, &lpOp{kind: "RECV", frame: f})
+					c.order = append(c.order, fmt.Sprintf("%d.%d", m, i))
+				}
+				m++
+			}
+		}
+		return res
+	}
+	return c
+}
+
 // genBigCase: a near-maximum packet (8179..8800 bytes) on one of the smallest MTUs with the header fields that shrink the
 // per-fragment payload most (32-byte token, congestion mark, incoming-face id): the largest fragment counts a sender can
 // produce (up to ~200); all frames go to the peer in random order.
@@ -1119,7 +1207,30 @@ func genAdvLpCase(r *rand.Rand, idx int) *lpCase {
 	var prev [][]byte
 	for k := 0; k < nops; k++ {
 		var f []byte
-		switch r.Intn(14) {
+		switch r.Intn(16) {
+		case 14, 15: // PIT tokens of every length (the decoder accepts any; NDNLPv2 says 1..32), valid inner packet or undecodable fragment
+			tl := []int{0, 1, 31, 32, 33, 64, 255, 1000}[r.Intn(8)]
+			tok := make([]byte, tl)
+			r.Read(tok)
+			var w []byte
+			switch r.Intn(4) {
+			case 0:
+				w = interest
+			case 1:
+				w = []byte{0x06, 0x03, 0xff, 0xff, 0xff} // not a packet
+			default:
+				w = data
+			}
+			lp := &spec.LpPacket{PitToken: tok, Fragment: enc.Wire{w}}
+			if r.Intn(3) == 0 { // as the last fragment of a two-fragment message
+				h := len(w) / 2
+				base := uint64(7000 + 10*k)
+				f0 := encodeLp(&spec.LpPacket{Sequence: utils.IdPtr(base), FragIndex: utils.IdPtr(uint64(0)), FragCount: utils.IdPtr(uint64(2)), Fragment: enc.Wire{w[:h]}})
+				prev = append(prev, f0)
+				c.ops = append(c.ops, &lpOp{kind: "RECV", frame: f0})
+				lp = &spec.LpPacket{Sequence: utils.IdPtr(base + 1), FragIndex: utils.IdPtr(uint64(1)), FragCount: utils.IdPtr(uint64(2)), PitToken: tok, Fragment: enc.Wire{w[h:]}}
+			}
+			f = encodeLp(lp)
 		case 12, 13: // network-layer packets at the edges of the Interest/Data checks: bare, LP-wrapped, or as two fragments
 			var w []byte
 			if r.Intn(3) == 0 {
@@ -1306,6 +1417,7 @@ func readLpCases(path string) ([]*lpCase, error) {
 			if h, ok := kv["hist"]; ok && h != "" && h != "-" {
 				o.hist = strings.Split(h, ",")
 			}
+			o.keep = kv["keep"] == "1"
 			if fs[0] == "SEND" {
 				o.wire = unhx(kv["wire"])
 			} else {
@@ -1408,6 +1520,16 @@ func TestLpTrace(t *testing.T) {
 			}
 			for i := 0; i < nh; i++ {
 				cases = append(cases, genHistCase(r, i, thorough))
+			}
+		}
+		// one link service, packet after packet with varying header-field sets
+		if nperm > 0 {
+			nv := 12
+			if thorough {
+				nv = 400
+			}
+			for i := 0; i < nv; i++ {
+				cases = append(cases, genVaryCase(r, i))
 			}
 		}
 		// near-maximum packets on the smallest MTUs: the sender's largest fragment counts against the receiver's bound
